@@ -186,9 +186,11 @@ inline void comparePlanWithShadow(Inst& in, const char* where) {
 		}
 		const std::string msg = fmt("at %s the plan iterates as %s but appended-and-not-removed tasks are %s; %s", where, planStr(in.actualPlan).c_str(), planStr(in.plan).c_str(), W->tail().c_str());
 		W->V("C10", fmt("plan!=appended-minus-removed|%s", in.actualPlan.size() < in.plan.size() ? "lost" : in.actualPlan.size() > in.plan.size() ? "extra" : "changed"), msg);
-		W->V("C08", "plan-changed-outside-plan-step", msg);
+		// the library changed the plan on its own outside the plan step (no edit by the harness in between)
+		if (!in.planEditedSinceCompare) W->V("C08", "plan-changed-outside-plan-step", msg);
 		in.plan = in.actualPlan;
 	}
+	in.planEditedSinceCompare = false;
 	W->stats.add("plan_readbacks_compared");
 #else
 	(void) in; (void) where;
